@@ -44,6 +44,11 @@ func Run(c *common.Ctx) error {
 	if err := streamedFrames(c, c.Rng.Fork()); err != nil {
 		return err
 	}
+	for _, mode := range []string{"cut", "damaged"} {
+		if err := unusableSnapshot(c, c.Rng.Fork(), mode); err != nil {
+			return err
+		}
+	}
 	if err := dropRestartRecreate(c, c.Rng.Fork()); err != nil {
 		return err
 	}
